@@ -48,6 +48,10 @@ type vectorSelector struct {
 
 	shard     int
 	numShards int
+
+	// selectTimestamp makes the selector yield the timestamp of the selected
+	// sample, in seconds, instead of its value: timestamp(<vector selector>).
+	selectTimestamp bool
 }
 
 // NewVectorSelector creates operator which selects vector of series.
@@ -57,10 +61,13 @@ func NewVectorSelector(
 	queryOpts *query.Options,
 	offset time.Duration,
 	shard, numShards int,
+	selectTimestamp bool,
 ) model.VectorOperator {
 	return &vectorSelector{
 		storage:    selector,
 		vectorPool: pool,
+
+		selectTimestamp: selectTimestamp,
 
 		mint:          queryOpts.Start.UnixMilli(),
 		maxt:          queryOpts.End.UnixMilli(),
@@ -117,9 +124,12 @@ func (o *vectorSelector) Next(ctx context.Context) ([]model.StepVector, error) {
 			if len(vectors) <= currStep {
 				vectors = append(vectors, o.vectorPool.GetStepVector(seriesTs))
 			}
-			_, v, ok, err := selectPoint(series.samples, seriesTs, o.lookbackDelta, o.offset)
+			t, v, ok, err := selectPoint(series.samples, seriesTs, o.lookbackDelta, o.offset)
 			if err != nil {
 				return nil, err
+			}
+			if o.selectTimestamp {
+				v = float64(t) / 1000
 			}
 			if ok {
 				vectors[currStep].SampleIDs = append(vectors[currStep].SampleIDs, series.signature)
